@@ -89,7 +89,7 @@ def gen_case(rng, mode=None, allow_deep=True):
     p, r = [], []
     halted_with = None
     # optional block around a run of items
-    blk = rng.choice([None, None, 'for', 'if', 'gosub']) if mode != 'proc' else None
+    blk = rng.choice([None, None, 'for', 'if', 'gosub', 'select', 'do', 'line', 'lineelse']) if mode != 'proc' else None
     if blk == 'gosub' and any(it[0] == 'fail' and it[5] for it in items):
         blk = 'for'       # partial results under a GOSUB return address are the known stack finding: probed separately
     blk_from = rng.randint(0, len(items) - 1) if blk else None
@@ -142,6 +142,14 @@ def gen_case(rng, mode=None, allow_deep=True):
             elif blk == 'if':
                 p.append('IF 1 THEN')
                 r.append('IF 1 THEN')
+            elif blk == 'select':
+                for q in (p, r):
+                    q += ['SELECT CASE w% * 0 + 4', 'CASE 1 TO 2', '  PRINT "no"', 'CASE 3, 4, 5']
+            elif blk == 'do':
+                for q in (p, r):
+                    q += ['DO']
+            elif blk in ('line', 'lineelse'):
+                line_p, line_r = [], []
             elif blk == 'gosub':
                 p.append('GOSUB body')
                 r.append('GOSUB body')
@@ -150,6 +158,8 @@ def gen_case(rng, mode=None, allow_deep=True):
         inblk = blk and blk_from <= idx <= blk_to
         if inblk and blk == 'gosub':
             emit(gos_p, gos_r, idx, it)
+        elif inblk and blk in ('line', 'lineelse'):
+            emit(line_p, line_r, idx, it)
         elif inblk:
             a, b = [], []
             emit(a, b, idx, it)
@@ -164,6 +174,17 @@ def gen_case(rng, mode=None, allow_deep=True):
             elif blk == 'if':
                 p.append('END IF')
                 r.append('END IF')
+            elif blk == 'select':
+                for q in (p, r):
+                    q += ['CASE ELSE', '  PRINT "else"', 'END SELECT']
+            elif blk == 'do':
+                for q in (p, r):
+                    q += ['LOOP UNTIL w% = w%']
+            elif blk in ('line', 'lineelse'):
+                # a single-line IF: every statement of the run on one line, in the THEN or in the ELSE part
+                head = 'IF z% + 2 THEN ' if blk == 'line' else 'IF z% * 0 THEN PRINT "no" ELSE '
+                p.append(head + ' : '.join(line_p))
+                r.append(head + ' : '.join(x for x in line_r if not x.startswith('REM')))
     # colon-join some adjacent simple statements identically in both (only outside blocks, same indices impossible:
     # P and R differ in length) - so join inside each separately but only 'ok' pairs that are equal in both
     on = {'next': 'ON ERROR GOTO h', 'resume': 'ON ERROR GOTO h', 'skip': 'ON ERROR RESUME NEXT', 'goto0': 'ON ERROR GOTO h',
@@ -194,8 +215,8 @@ def join_some(rng, lines):
     """join adjacent unindented simple statements with ' : ' (RESUME NEXT must continue on the same line)"""
     out = []
     for l in lines:
-        simple = not l.startswith((' ', 'FOR', 'NEXT', 'IF', 'END IF', 'GOSUB')) and not l.endswith(':')
-        if out and simple and rng.random() < 0.5 and not out[-1].startswith((' ', 'FOR', 'NEXT', 'IF', 'END IF', 'ON ERROR')) \
+        simple = not l.startswith((' ', 'FOR', 'NEXT', 'IF', 'END IF', 'GOSUB', 'SELECT', 'CASE', 'END SELECT', 'DO', 'LOOP')) and not l.endswith(':')
+        if out and simple and rng.random() < 0.5 and not out[-1].startswith((' ', 'FOR', 'NEXT', 'IF', 'END IF', 'ON ERROR', 'SELECT', 'CASE', 'END SELECT', 'DO', 'LOOP')) \
                 and not out[-1].startswith('REM'):
             out[-1] = out[-1] + ' : ' + l
         else:
